@@ -428,3 +428,218 @@ Contract(
     fuel=7,
     note="layer p is the set of worlds of rank levels[p]; the levels (ghost output) ascend and contain every rank that occurs; unranked worlds are in no layer",
 )
+
+
+# ---------------------------------------------------------------------------
+# C18: conditionalisation = the ranks of the worlds that satisfy the condition
+# ---------------------------------------------------------------------------
+def _sat(w, F):
+    return L.nonempty(L.inter(Wof(w), L.M(F)))
+
+
+def _fw_post(c, r):
+    ks = _keys(c)
+    w = z3.Const("_fw_w", StrSort)
+    i, i2 = z3.Ints("_fw_i _fw_i2")
+    F = c.conditionalization.t
+    return [
+        Forall([w], [mem_Str(r.t, w)], mem_Str(r.t, w) == z3.And(mem_Str(ks, w), _sat(w, F)), "filter_worlds.members"),
+        Forall([w], [mem_Str(ks, w)], mem_Str(r.t, w) == z3.And(mem_Str(ks, w), _sat(w, F)), "filter_worlds.members.r"),
+        Forall([i, i2], [LStr.at(r.t, i), LStr.at(r.t, i2)], z3.Implies(z3.And(0 <= i, i < i2, i2 < LStr.len(r.t)), LStr.at(r.t, i) != LStr.at(r.t, i2)), "filter_worlds.distinct"),
+    ]
+
+
+Contract(
+    "inference.preocf:PreOCF.filter_worlds_by_conditionalization",
+    params={"self": OCF, "conditionalization": TForm},
+    returns=TList(TStr),
+    ensures=_fw_post,
+    properties=["C18"],
+    fuel=6,
+    note="exactly the worlds of the ranking that satisfy the formula, each once",
+)
+
+
+def _cc_inv(s, j, pre):
+    d = s._st.env.get("_dc")
+    if not isinstance(d, VDict):
+        return [j == 0]
+    ws = s.worlds.t
+    p = z3.Int("_cc_p")
+    v = lambda k: _OI.wrap(z3.Select(d.val, k))
+    return [
+        LStr.len(d.keys) == j,
+        L.LForall([p], [LStr.at(d.keys, p)], z3.Implies(z3.And(0 <= p, p < j), LStr.at(d.keys, p) == LStr.at(ws, p)), "cc.keys"),
+        L.LForall([p], [LStr.at(ws, p)], z3.Implies(z3.And(0 <= p, p < j), z3.And(LStr.at(d.keys, p) == LStr.at(ws, p), z3.Not(v(LStr.at(ws, p)).isnone), v(LStr.at(ws, p)).val.t == RKf(LStr.at(ws, p)))), "cc.vals"),
+        _keys(s) == _keys(pre),
+    ]
+
+
+def _cc_post(c, r):
+    ks = _keys(c.old)
+    w = z3.Const("_ccp_w", StrSort)
+    F = c.conditionalization.t
+    v = _OI.wrap(z3.Select(r.val, w))
+    return [
+        Forall([w], [mem_Str(r.keys, w)], mem_Str(r.keys, w) == z3.And(mem_Str(ks, w), _sat(w, F)), "conditionalization.keys"),
+        Forall([w], [mem_Str(ks, w)], mem_Str(r.keys, w) == z3.And(mem_Str(ks, w), _sat(w, F)), "conditionalization.keys.r"),
+        Forall([w], [mem_Str(r.keys, w)], z3.Implies(mem_Str(r.keys, w), z3.And(z3.Not(v.isnone), v.val.t == RKf(w))), "conditionalization.ranks"),
+    ]
+
+
+Contract(
+    "inference.preocf:PreOCF.compute_conditionalization",
+    params={"self": OCF, "conditionalization": TForm},
+    returns=RanksT,
+    locals={"_dc": RanksT},
+    ensures=_cc_post,
+    raises={"ValueError": lambda c: z3.BoolVal(True)},
+    modifies=["self.ranks"],
+    loops={0: LoopSpec("{... for w in worlds}", _cc_inv)},
+    properties=["C18"],
+    fuel=7,
+    note="the conditionalised ranking has exactly the worlds satisfying the formula, each with its rank",
+)
+
+
+def _ce_inv(s, j, pre):
+    d = s._st.env.get("_dc")
+    if not isinstance(d, VDict):
+        return [j == 0]
+    ws = s.worlds.t
+    p = z3.Int("_ce_p")
+    return [
+        LStr.len(d.keys) == j,
+        L.LForall([p], [LStr.at(d.keys, p)], z3.Implies(z3.And(0 <= p, p < j), LStr.at(d.keys, p) == LStr.at(ws, p)), "ce.keys"),
+        L.LForall([p], [LStr.at(ws, p)], z3.Implies(z3.And(0 <= p, p < j), z3.And(LStr.at(d.keys, p) == LStr.at(ws, p), z3.Select(d.val, LStr.at(ws, p)) == z3.Select(s.field(s.self, "ranks").val, LStr.at(ws, p)))), "ce.vals"),
+    ]
+
+
+def _ce_post(c, r):
+    d0 = c.field(c.self, "ranks")
+    w = z3.Const("_cep_w", StrSort)
+    F = c.conditionalization.t
+    return [
+        Forall([w], [mem_Str(r.keys, w)], mem_Str(r.keys, w) == z3.And(mem_Str(d0.keys, w), _sat(w, F)), "conditionalize_existing.keys"),
+        Forall([w], [mem_Str(d0.keys, w)], mem_Str(r.keys, w) == z3.And(mem_Str(d0.keys, w), _sat(w, F)), "conditionalize_existing.keys.r"),
+        Forall([w], [mem_Str(r.keys, w)], z3.Implies(mem_Str(r.keys, w), z3.Select(r.val, w) == z3.Select(d0.val, w)), "conditionalize_existing.ranks"),
+    ]
+
+
+Contract(
+    "inference.preocf:PreOCF.conditionalize_existing_ranks",
+    params={"self": OCF, "conditionalization": TForm},
+    returns=RanksT,
+    locals={"_dc": RanksT},
+    ensures=_ce_post,
+    loops={0: LoopSpec("{... for w in worlds}", _ce_inv)},
+    properties=["C18"],
+    fuel=7,
+    note="the stored ranks (None where not yet computed) of exactly the worlds satisfying the formula",
+)
+
+
+# ---------------------------------------------------------------------------
+# C18: marginalisation -- for each remaining world the least rank of its extensions
+# ---------------------------------------------------------------------------
+# the bit deletion itself (a string comprehension) is abstracted as PJ(world, signature, marginalization): what is
+# proved is the grouping-and-minimum structure and the new signature; the bit positions are Engine B's (bounded) part
+PJ = z3.Function("PJ", StrSort, LStr.sort, LStr.sort, StrSort)
+_ValS = z3.ArraySort(StrSort, _OI.sort())
+_MSORTS = [LStr.sort, _ValS, LStr.sort, LStr.sort, StrSort, L.Int, L.Int]  # keys, val, sig, marg, new world, rank, bound
+
+
+def _m_hit(x, p):
+    w = LStr.at(x[0], p)
+    return z3.And(PJ(w, x[2], x[3]) == x[4], z3.Not(_OI.wrap(z3.Select(x[1], w)).isnone))
+
+
+# MargAtt(.., nw, v, n): one of the first n worlds projects to nw, is ranked, and has rank v
+MargAtt, _ = _IT.defpred_some("MargAtt", _MSORTS, lambda x: x[6], lambda x, p: z3.And(_m_hit(x, p), _OI.wrap(z3.Select(x[1], LStr.at(x[0], p))).val.t == x[5]), lambda x, p: LStr.at(x[0], p), step=True)
+# MargLB(.., nw, v, n): v is a lower bound of the ranks of the ranked worlds among the first n that project to nw
+MargLB, _ = _IT.defpred_all("MargLB", _MSORTS, lambda x: x[6], lambda x, p: z3.Implies(_m_hit(x, p), x[5] <= _OI.wrap(z3.Select(x[1], LStr.at(x[0], p))).val.t), lambda x, p: LStr.at(x[0], p), step=True)
+
+# MargAny(.., nw, n): one of the first n worlds projects to nw and is ranked
+MargAny, _ = _IT.defpred_some("MargAny", _MSORTS[:5] + [L.Int], lambda x: x[5], _m_hit, lambda x, p: LStr.at(x[0], p), step=True)
+
+MOCF = TObj("PreOCF", {"ranks": RanksT, "signature": TOptional(TList(TStr)), "_metadata": TOpaque, "conditionals": TOpaque})
+COCF = TObj("CustomPreOCF", {"ranks": RanksT, "signature": TOptional(TList(TStr)), "_metadata": TOpaque, "conditionals": TOpaque})
+
+
+def _marg_facts(d0, sig, marg, r, n, tag):
+    """the dict r holds, for every projected world, the least rank among the first n worlds projecting to it"""
+    nw = z3.Const("_mg_nw", StrSort)
+    e = _OI.wrap(z3.Select(r.val, nw))
+    a = lambda x, val: (d0.keys, d0.val, sig, marg, x, val, n)
+    any_ = MargAny(d0.keys, d0.val, sig, marg, nw, n)
+    return [
+        Forall([nw], [mem_Str(r.keys, nw)], z3.Implies(mem_Str(r.keys, nw), z3.And(z3.Not(e.isnone), MargAtt(*a(nw, e.val.t)), MargLB(*a(nw, e.val.t)))), tag + ".least"),
+    ] + _IT.both([nw], mem_Str(r.keys, nw), any_, tag + ".keys")
+
+
+def _marg_inv(s, j, pre):
+    r = s._st.env.get("ranks")
+    if not isinstance(r, VDict):
+        return [j == 0]
+    d0 = s.field(s.self, "ranks")
+    sig = s.field(s.self, "signature")
+    return _marg_facts(d0, sig.val.t, s.marginalization.t, r, j, "marg.inv") + [z3.Not(sig.isnone)]
+
+
+def _marg_post(c, r):
+    d0 = c.field(c.old.self, "ranks")
+    sig = c.field(c.old.self, "signature").val.t
+    marg = c.marginalization.t
+    rr = c.field(r, "ranks")
+    rs = c.field(r, "signature")
+    POS = c.ghost["kept"].t
+    ns = rs.val.t
+    a, b = z3.Ints("_mgp_a _mgp_b")
+    n_ns = LIntL.len(POS)
+    return _marg_facts(d0, sig, marg, rr, LStr.len(d0.keys), "marginalize") + [
+        z3.Implies(n_ns > 0, z3.And(z3.Not(rs.isnone), LStr.len(ns) == n_ns)),
+        Forall([a], [LIntL.at(POS, a)], z3.Implies(z3.And(0 <= a, a < n_ns), z3.And(0 <= LIntL.at(POS, a), LIntL.at(POS, a) < LStr.len(sig), z3.Not(mem_Str(marg, LStr.at(sig, LIntL.at(POS, a)))))), "marginalize.signature.kept"),
+        Forall([a], [LStr.at(ns, a)], z3.Implies(z3.And(n_ns > 0, 0 <= a, a < n_ns), LStr.at(ns, a) == LStr.at(sig, LIntL.at(POS, a))), "marginalize.signature.atoms"),
+        Forall([a, b], [LIntL.at(POS, a), LIntL.at(POS, b)], z3.Implies(z3.And(0 <= a, a < b, b < n_ns), LIntL.at(POS, a) < LIntL.at(POS, b)), "marginalize.signature.order"),
+        Forall([a], [LStr.at(sig, a)], z3.Implies(z3.And(0 <= a, a < LStr.len(sig), z3.Not(mem_Str(marg, LStr.at(sig, a)))), mem_I(POS, a)), "marginalize.signature.complete"),
+    ]
+
+
+Contract(
+    "inference.preocf:PreOCF.init_custom",
+    params={"cls": TOpaque, "ranks": RanksT, "belief_base": TNone, "signature": TOptional(TList(TStr)), "metadata": TOpaque},
+    returns=COCF,
+    ensures=lambda c, r: [
+        c.field(r, "ranks").keys == c.ranks.keys,
+        c.field(r, "ranks").val == c.ranks.val,
+        z3.Implies(z3.And(z3.Not(c.signature.isnone), LStr.len(c.signature.val.t) > 0), z3.And(z3.Not(c.field(r, "signature").isnone), c.field(r, "signature").val.t == c.signature.val.t)),
+    ],
+    trusted=True,
+    note="ASSUMED (CTOR): three straight-line constructor hops (init_custom -> CustomPreOCF.__init__ -> PreOCF.__init__) store the "
+    "ranks and a non-empty signature unchanged in the new object; exercised by Engine B (C18)",
+)
+
+_JOIN = "''.join([world[i] for i in range(len(world)) if self.signature[i] not in marginalization])"
+
+Contract(
+    "inference.preocf:PreOCF.marginalize",
+    params={"self": MOCF, "marginalization": TList(TStr)},
+    returns=COCF,
+    locals={"ranks": RanksT},
+    ensures=_marg_post,
+    ghost_out={"kept": TList(TInt)},
+    ghost_wit=lambda c, r: {"kept": c._st.env.get("__filter_pos_last", VList(LIntL.nil, TInt))},
+    raises={"ValueError": lambda c: c.field(c.self, "signature").isnone},
+    abstractions={
+        _JOIN: (
+            lambda s: VStr(PJ(s.world.t, s.field(s.self, "signature").val.t, s.marginalization.t)),
+            "ASSUMED (PJ): the bit deletion is a function PJ(world, signature, marginalization) of its inputs; which bits "
+            "it deletes is compared with the definition by Engine B (bounded, C18)",
+        )
+    },
+    loops={0: LoopSpec("for world in self.ranks.keys()", _marg_inv)},
+    properties=["C18"],
+    fuel=7,
+    note="every projected world that has a ranked extension gets the least rank of its ranked extensions (attained and a lower "
+    "bound); no other key; the new signature is the subsequence of the atoms not marginalised away (ghost output: kept positions)",
+)
